@@ -18,7 +18,7 @@ from .report import Check
 PROPS = [f"C{i:02d}" for i in range(1, 19)]
 
 
-def run_check(prop: str, tier: str, repo: Repo = None, write: bool = True, quiet: bool = False) -> Check:
+def run_check(prop: str, tier: str, repo: Repo = None, write: bool = True, quiet: bool = False, hygiene: bool = True) -> Check:
     mod = importlib.import_module(f"sa.props.{prop.lower()}")
     repo = repo or Repo()
     ck = Check(prop, tier, repo, explanation=getattr(mod, "EXPLANATION", ""), quiet=quiet)
@@ -26,6 +26,10 @@ def run_check(prop: str, tier: str, repo: Repo = None, write: bool = True, quiet
     try:
         mod.check(ck)
         _anchored_awaits(ck, prop)
+        if hygiene:
+            from . import hygiene as _hy
+
+            _hy.check(ck, prop)
     except AnalysisError as e:
         ck.errors.append(str(e))
     except Exception as e:  # never a traceback-as-violation
